@@ -418,8 +418,16 @@ Inductive frame :=
 | FHeaders (flags sid : Z) (hs : list went)
 | FWindow (sid delta : Z)
 | FData (sid flags : Z) (data : bytes).
+(* uint32(flags)<<24 | length : the 24-bit length field shares a word with the flags byte *)
+Definition lenword (flags len : Z) : Z := u32 (Z.lor (flags * 2^24) len).
 Definition cf_header (typ flags len : Z) : bytes :=
-  be16 (Z.lor 32768 3) ++ be16 typ ++ be32 (u32 (Z.lor (flags * 2^24) len)).
+  be16 (Z.lor 32768 3) ++ be16 typ ++ be32 (lenword flags len).
+(* writeDataFrame up to the payload: inl = error code (nothing written), inr = the 8 header bytes.
+   len(frame.Data) > MaxDataLength (2^24 - 1) is rejected with InvalidDataFrame *)
+Definition data_header (sid flags len : Z) : Z + bytes :=
+  if sid =? 0 then inl 17
+  else if (2^31 <=? sid) || (2^24 - 1 <? len) then inl 15
+  else inr (be32 sid ++ be32 (lenword flags len)).
 (* bytes appended to the wire and the header block (offset relative to the frame start, plain bytes).
    With the identity "compressor" the block is the payload itself. *)
 Definition write_frame (f : frame) : bytes * option (Z * bytes) :=
@@ -445,9 +453,10 @@ Definition write_frame (f : frame) : bytes * option (Z * bytes) :=
   | FGoAway last status => (cf_header 7 0 8 ++ be32 last ++ be32 status, None)
   | FWindow sid delta => (cf_header 9 0 8 ++ be32 sid ++ be32 delta, None)
   | FData sid flags data =>
-    if sid =? 0 then ([], None)
-    else if (2^31 <=? sid) || (2^24 - 1 <? blen data) then ([], None)
-    else (be32 sid ++ be32 (u32 (Z.lor (flags * 2^24) (blen data))) ++ data, None)
+    match data_header sid flags (blen data) with
+    | inr h => (h ++ data, None)
+    | inl _ => ([], None)
+    end
   end.
 Fixpoint write_stream (fs : list frame) (o idx : Z) : bytes * list chunk :=
   match fs with
